@@ -15,3 +15,20 @@ Print Assumptions ra_col_mean_correct.
 
 Example ra_col_mean_example : ra_col_mean pair ([5; 5; 7; 4; 1; 2; 3; 3], [3; 1; 0; 4]) = [(10, 3); (7, 2); (10, 2); (3, 1)].
 Proof. vm_compute. reflexivity. Qed.
+
+(* C05: mean(axis=-1) = for every row, (sum of the row) / (length of the row) *)
+From NPS Require Import Reduce ReduceProof.
+Lemma fold_add_zsum : forall xs x, fold_left Z.add xs x = x + zsum xs.
+Proof. induction xs as [|y xs IH]; intros x; cbn [fold_left zsum]; [lia|]. rewrite IH. lia. Qed.
+Theorem ra_row_mean_correct {C} (dv : Z -> Z -> C) (R : list (list Z)) :
+  ra_row_mean dv (concat R, map zlen R) = Some (map (fun r => dv (zsum r) (zlen r)) R).
+Proof.
+  unfold ra_row_mean. cbn [fst snd].
+  rewrite (reduce_correct Z 0 Z.add 0 (concat R) (map zlen R) (all_nonneg_zlen R)).
+  - f_equal. unfold spec_reduce. rewrite Denote.segments_concat_rows. clear. induction R as [|r R IH]; [reflexivity|].
+    cbn [map map2]. rewrite IH. f_equal. f_equal. destruct r as [|x xs]; [reflexivity|]. cbn [fold_row zsum]. apply fold_add_zsum.
+  - clear. induction R as [|r R IH]; [reflexivity|]. cbn [map zsum concat]. unfold zlen in *. rewrite app_length, Nat2Z.inj_add. lia.
+Qed.
+Print Assumptions ra_row_mean_correct.
+Example ra_row_mean_example : ra_row_mean pair ([5; 5; 7; 4; 1; 2; 3; 3], [3; 1; 0; 4]) = Some [(17, 3); (4, 1); (0, 0); (9, 4)].
+Proof. vm_compute. reflexivity. Qed.
